@@ -400,9 +400,6 @@ func (se *specEnv) objVal(obj types.Object) (specVal, error) {
 // localByName finds a source-level variable: a phi of the current loop header, any phi, or an Alloc.
 func (se *specEnv) localByName(name string) (specVal, bool) {
 	e := se.e
-	if v, ok := se.debugName(name); ok {
-		return v, true
-	}
 	if se.loop != nil {
 		for _, ins := range se.loop.header.Instrs {
 			phi, ok := ins.(*ssa.Phi)
@@ -411,10 +408,20 @@ func (se *specEnv) localByName(name string) (specVal, bool) {
 			}
 			if phi.Comment == name {
 				if t, ok := e.vals[phi]; ok {
+					if allAllocEdges(phi) {
+						// the phi is the address of the variable's current cell (captured per-iteration variable)
+						ct := derefType(phi.Type())
+						rv := e.loadPtr(se.cur, t, ct)
+						se.typed(rv, ct)
+						return specVal{t: rv, typ: ct}, true
+					}
 					return specVal{t: t, typ: phi.Type()}, true
 				}
 			}
 		}
+	}
+	if v, ok := se.debugName(name); ok {
+		return v, true
 	}
 	var found ssa.Value
 	for _, b := range se.fn.Blocks {
@@ -672,7 +679,13 @@ func (se *specEnv) evalCall(n *SCall) (specVal, error) {
 	case "typeis":
 		// typeis(x, "pkg.Type") for interface values: dynamic type test by registered name
 		return specVal{}, fmt.Errorf("typeis not supported")
-	case "isErrFailNow", "dynNil":
+	case "errorsIs":
+		as, err := args()
+		if err != nil {
+			return specVal{}, err
+		}
+		e.sc.DeclareFun("errors_is", []string{SIface, SIface}, SBool)
+		return specVal{t: And(Not(Eq(as[0].t, nilIface())), Eq(as[0].t, as[1].t))}, nil
 	}
 	// user predicate
 	if p, ok := e.prog.cs.Preds[n.Fn]; ok {
